@@ -28,7 +28,7 @@ other_common_names_set = {'datetime', 'time', 'date', 'defaultdict', 'schema'}
 generated_code_names_set = {
     'attr', 'field', 'dataclass', 'optional', 'convert_strings', 'self',
     'json', 'copy', 'fields', 'construct', 'validate', 'schema_json', 'from_orm', 'update_forward_refs',
-    'parse_obj', 'parse_raw', 'parse_file',
+    'parse_obj', 'parse_raw', 'parse_file', 'register', 'mro',
     'Any', 'Dict', 'List', 'Literal', 'Optional', 'Union',
     'BaseModel', 'Field', 'SQLModel', 'Config', 'ClassType',
     'IntString', 'FloatString', 'BooleanString', 'IsoDateString', 'IsoTimeString', 'IsoDatetimeString',
